@@ -249,10 +249,16 @@ func (cs *clientStream) SendMsg(m interface{}) error {
 		return err
 	}
 	if err := cs.ctx.Err(); err != nil {
-		// The caller has cancelled the call, or its deadline has passed, and
-		// the read loop has not got round to ending the stream yet: a
-		// transport that does not look at the context when it need not wait
-		// would still take the message.
+		// The stream's context has ended. If that is because the stream has
+		// just finished (its teardown cancels the context), report its outcome
+		// as the check above would have.
+		if done, rErr := cs.readErrorIfDone(); done {
+			return rErr
+		}
+		// Otherwise the caller has cancelled the call, or its deadline has
+		// passed, and the read loop has not got round to ending the stream
+		// yet: a transport that does not look at the context when it need not
+		// wait would still take the message.
 		return err
 	}
 	verifhook.At("cs.send.window", cs.id)
